@@ -218,7 +218,8 @@ def case_cumdf(ctx, inp):
     import pandas as pd
     cols, lens, op, skipna = inp["cols"], inp["lens"], inp["op"], inp["skipna"]
     n = sum(lens)
-    df = pd.DataFrame({k: U.mk_series(v) for k, v in cols.items()}, index=range(n))
+    ints = set(inp.get("int_cols", []))
+    df = pd.DataFrame({k: U.mk_series(v, "int64" if k in ints else "float64") for k, v in cols.items()}, index=range(n))
     expected = getattr(df, OPS[op])(skipna=skipna)
     d = U.from_parts(df, lens)
     cls = _cumdf_class(cols, lens, op, skipna)
@@ -240,6 +241,11 @@ def case_cumdf(ctx, inp):
         ctx.fail(f"DataFrame.{OPS[op]}(skipna={skipna}) differs from pandas",
                  sig=(f"cumdf:{cls}:wrong-values" if cls else None),
                  observed={k: U.series_cells(whole[k]) for k in cols}, expected={k: U.series_cells(expected[k]) for k in cols})
+    if ok and [str(t) for t in whole.dtypes] != [str(t) for t in expected.dtypes]:
+        mixed = bool(ints) and len(ints) < len(cols) and len(lens) > 1
+        ctx.fail(f"DataFrame.{OPS[op]}: values equal pandas but dtypes differ",
+                 sig=("cumdf:mixed-int-float-columns:int-upcast-to-float64" if mixed else None),
+                 observed=[str(t) for t in whole.dtypes], expected=[str(t) for t in expected.dtypes])
     # per-column model of the DataFrame path (defined for >= 2 columns)
     if len(cols) >= 2:
         for k, cells in cols.items():
@@ -357,7 +363,7 @@ def case_overlap(ctx, inp):
 
 def _mk_frame(inp):
     import numpy as np
-    import pandas as pd
+    import pandas as pd  # noqa: F811
     cols = {k: [np.nan if c is None else float(c) + 0.5 * (i % 2) for i, c in enumerate(v)] for k, v in inp["cols"].items()}
     n = len(next(iter(cols.values())))
     if inp.get("tindex"):
@@ -387,6 +393,49 @@ def _api_ops(inp):
     raise KeyError(k)
 
 
+def gen_time_window(rng):
+    """time-based windows over >= 3 partitions whose WIDTHS are irregular around the window size: narrow partitions
+    (narrower than the window) at every position, in particular ONLY the second-to-last one"""
+    w = rng.choice([3, 5, 6, 8])
+    k = rng.randint(3, 5)
+    wide = lambda: rng.choice([w + 1, 2 * w + 3, 3 * w, w + 5])
+    narrow = lambda: rng.choice([1, max(1, w // 2), w - 1])
+    mode = rng.choice(["second-to-last", "second-to-last", "first", "middle", "last", "several", "none"])
+    widths = [wide() for _ in range(k)]
+    if mode == "second-to-last":
+        widths[k - 2] = narrow()
+    elif mode == "first":
+        widths[0] = narrow()
+    elif mode == "middle":
+        widths[rng.randint(1, k - 2)] = narrow()
+    elif mode == "last":
+        widths[k - 1] = narrow()
+    elif mode == "several":
+        for i in rng.sample(range(k), 2):
+            widths[i] = narrow()
+    t, lens, start = [], [], 0
+    for wd in widths:
+        # rows at irregular 1..3 s spacing inside [start, start + wd); at least one row, first row AT the start
+        cur, rows = start, []
+        while cur < start + wd:
+            rows.append(cur)
+            cur += rng.choice([1, 1, 2, 3])
+        t.extend(rows)
+        lens.append(len(rows))
+        start += wd
+    n = len(t)
+    kind = rng.choice(["trolling", "trolling", "tmap_overlap"])
+    inp = {"cols": {"a": gen_cells_f(rng, n, 0.1), "b": gen_cells_f(rng, n, 0.3)}, "tindex": t, "lens": lens, "kind": kind,
+           "column": rng.choice([None, "a", "b"]), "narrow": mode,
+           "params": {"window": f"{w}s", "min_periods": rng.choice([None, 1, 2]), "how": rng.choice(["sum", "mean", "count", "max"])},
+           "check_partitions": rng.random() < 0.3}
+    return inp
+
+
+def gen_cells_f(rng, n, p):
+    return U.gen_cells(rng, n, p_nan=p)
+
+
 def case_api(ctx, inp):
     import pandas as pd
     df = _mk_frame(inp)
@@ -397,21 +446,34 @@ def case_api(ctx, inp):
     else:
         pobj = df
     d = U.from_parts(pobj, lens)
+    got_parts = None
     try:
         if kind == "map_overlap":
             w = p["window"]
             f = _RollSum(w)
             expected = f(pobj)
             r = d.map_overlap(f, p["before"], p["after"])
+        elif kind == "tmap_overlap":
+            f = _RollSum(p["window"])
+            expected = f(pobj)
+            r = d.map_overlap(f, pd.Timedelta(p["window"]), 0)
         else:
             op = _api_ops(inp)
             expected = op(pobj)
             r = op(d)
+        proj = inp.get("proj")
+        if proj is not None and isinstance(expected, pd.DataFrame):
+            # `op(...)[["a"]]` must stay a one-column DataFrame, `op(...)["a"]` a Series
+            expected = expected[proj]
+            r = r[proj]
         got = r.compute(scheduler="sync")
+        if inp.get("check_partitions") and r.npartitions > 1:
+            # `.partitions[i]` selects ONE output partition: it must still see the rows of its neighbours
+            got_parts = pd.concat([r.partitions[i].compute(scheduler="sync") for i in range(r.npartitions)])
     except NotImplementedError as e:
         if MSG_SMALL in str(e):
             ctx.branch("api-raised-too-small")
-            if kind == "trolling":
+            if kind in ("trolling", "tmap_overlap"):
                 ctx.fail("time-based rolling raised 'partition too small' (time windows may span partitions)", observed=str(e)[:200])
             return
         ctx.fail(f"{kind} raised NotImplementedError", observed=str(e)[:300])
@@ -438,7 +500,26 @@ def case_api(ctx, inp):
         ctx.fail(f"{kind} {p} differs from pandas", sig=(f"cumdf:{cls}:wrong-values" if cls else None),
                  observed=str(e)[:300])
         return
+    if got_parts is not None:
+        try:
+            if isinstance(expected, pd.DataFrame):
+                pd.testing.assert_frame_equal(got_parts, expected, check_exact=False, rtol=1e-9, atol=1e-9, check_freq=False)
+            else:
+                pd.testing.assert_series_equal(got_parts, expected, check_exact=False, rtol=1e-9, atol=1e-9, check_freq=False)
+            ctx.branch("api-partitions-selected-one-by-one")
+        except AssertionError as e:
+            cls = None
+            if kind == "cum" and isinstance(expected, pd.DataFrame):
+                cols = {k: [None if v != v else 1 for v in pobj[k].tolist()] for k in pobj.columns}
+                cls = _cumdf_class(cols, lens, p["how"][3:], True)
+            ctx.fail(f"{kind} {p}: concatenation of .partitions[i] differs from pandas (the whole result is right)",
+                     sig=(f"cumdf:{cls}:wrong-values" if cls else None), observed=str(e)[:300])
+            return
     ctx.branch("api-" + kind + ("-multi" if len(lens) > 1 else "-single"))
+    if inp.get("proj") is not None:
+        ctx.branch("api-projection-of-result")
+    if inp.get("narrow"):
+        ctx.branch("api-time-window-narrow-partition-" + str(inp["narrow"]))
 
 
 class _RollSum:
@@ -527,6 +608,9 @@ def gen_api(rng):
         inp["tindex"] = t[:m]
     if m == 0:
         return None
+    if inp["column"] is None and kind in ("rolling", "shift", "diff", "ffill", "cum") and rng.random() < 0.35:
+        inp["proj"] = rng.choice([["a"], ["b"], "a", ["b", "a"]])
+    inp["check_partitions"] = kind != "trolling" and rng.random() < 0.3
     return inp
 
 
@@ -592,7 +676,13 @@ def generate(ctx):
                 for i in b[:-1]:
                     if i < n:
                         v[i] = 1
-        yield "cumdf", {"cols": cols, "lens": lens, "op": rng.choice(list(OPS)), "skipna": rng.random() < 0.6}
+        inp = {"cols": cols, "lens": lens, "op": rng.choice(list(OPS)), "skipna": rng.random() < 0.6}
+        if rng.random() < 0.3:
+            ic = [c for c in cols if rng.random() < 0.5]
+            for c in ic:
+                cols[c] = [1 if v is None else v for v in cols[c]]
+            inp["int_cols"] = ic
+        yield "cumdf", inp
     # --- overlap ---------------------------------------------------------------------------------
     for _ in range(ctx.n(170, 4000)):
         fn = _gen_fn(rng, 0)
@@ -606,8 +696,11 @@ def generate(ctx):
             lens = U.gen_lens(rng, n, 4)
         cells = U.gen_cells(rng, n, p_nan=rng.choice([0.0, 0.2, 0.5]) if fn[0] != "ffill" and fn[0] != "bfill" else rng.choice([0.3, 0.6]))
         yield "overlap", {"cells": cells, "lens": lens, "fn": fn}
+    # --- time-based windows with irregular partition widths ---------------------------------------
+    for _ in range(ctx.n(40, 600)):
+        yield "api", gen_time_window(rng)
     # --- API level -------------------------------------------------------------------------------
-    for _ in range(ctx.n(70, 1200)):
+    for _ in range(ctx.n(60, 1200)):
         inp = gen_api(rng)
         if inp is not None:
             yield "api", inp
